@@ -51,7 +51,8 @@ type Case struct {
 	Before     []Cmd  `json:"before,omitempty"`
 	Cmds       []Cmd  `json:"cmds"`
 	After      []Cmd  `json:"after,omitempty"`
-	NVar       int    `json:"nvar"` // 0 = no variations key
+	NVar       int    `json:"nvar"`              // 0 = no variations key
+	DupVar     bool   `json:"dup_var,omitempty"` // the list of variations ends with a copy of its first entry: it runs again
 	Allow      bool   `json:"allow"`
 	Cond       int    `json:"cond"` // 0 none 1 true 2 false
 	CondStatus int    `json:"cond_status,omitempty"`
@@ -104,6 +105,18 @@ func writeStatuses(c Case, dir string) {
 		st = c.CondStatus
 	}
 	os.WriteFile(filepath.Join(dir, "st.cond"), []byte(fmt.Sprint(st)), 0o644)
+}
+
+// varIdx lists the variations of the case by the index their values are derived from.
+func (c Case) varIdx() []int {
+	var l []int
+	for i := 0; i < c.NVar; i++ {
+		l = append(l, i)
+	}
+	if c.DupVar && c.NVar >= 1 {
+		l = append(l, 0)
+	}
+	return l
 }
 
 func exitShape(shape, n int) string {
@@ -173,7 +186,7 @@ func model(c Case) expect {
 	vars := []string{""}
 	if c.NVar > 0 {
 		vars = nil
-		for i := 0; i < c.NVar; i++ {
+		for _, i := range c.varIdx() {
 			w := "none"
 			if i%2 == 0 {
 				w = fmt.Sprintf("w%d", i)
@@ -227,7 +240,7 @@ func mkTask(c Case, trace string) *task.Task {
 	for _, a := range c.After {
 		tk.After = append(tk.After, a.textFrom(trace, false, stDir))
 	}
-	for i := 0; i < c.NVar; i++ {
+	for _, i := range c.varIdx() {
 		v := map[string]string{"V": fmt.Sprintf("v%d", i)}
 		if i%2 == 0 {
 			v["W"] = fmt.Sprintf("w%d", i)
@@ -407,7 +420,7 @@ func runCLI(c Case, dir string) (vs []Violation) {
 	}
 	if c.NVar > 0 {
 		var l gen.List
-		for i := 0; i < c.NVar; i++ {
+		for _, i := range c.varIdx() {
 			v := gen.Map{{K: "V", V: fmt.Sprintf("v%d", i)}}
 			if i%2 == 0 {
 				v = v.Set("W", fmt.Sprintf("w%d", i))
@@ -548,6 +561,7 @@ func genCase(rt *rapid.T, maxCmds int) Case {
 		Cmds:   genCmds(rt, "c", 1, maxCmds),
 		After:  genCmds(rt, "a", 0, 2),
 		NVar:   rapid.IntRange(0, 3).Draw(rt, "nvar"),
+		DupVar: rapid.IntRange(0, 3).Draw(rt, "repeat-first-variation") == 0,
 		Allow:  rapid.Bool().Draw(rt, "allow"),
 		Cond:   rapid.SampledFrom([]int{0, 0, 1, 2}).Draw(rt, "cond"),
 	}
